@@ -1552,6 +1552,43 @@ C08_PREC_W = dict(
           + _C08_SELF + _C08_SCALAR + _C08_SQRT + _C08_DRAWS + _C08_VEC + _C08_VEC2 + _C08_MAT,
     assign_effects=[_store("gam")],
 )
+# the vector Gaussian blocks: matrix primitives, the try/except around sample_mvn_from_precision
+_getcall = lambda f: ("self.get('%s', __i)" % f, "!src_get (list qnum) (repeat q0 (c_D g)) (%s self') {i}" % f, _QM, {"i": _ZV})
+_C08_LINALG = [
+    _getcall("V2"), _getcall("V1"),                            # runs the translated get on self.V2 / self.V1 (a zero row has D zeros)
+    ("__a[__i]", "np_gather 0%Z {a} {i}", _ZV, {"a": _ZV, "i": _NV}),
+    ("__a[__i]", "np_get [] {a} {i}", _QV, {"a": _QM, "i": "Z"}),
+    ("__X @ __v", "np_matvec {X} {v}", _QV, {"X": _QM, "v": _QV}),
+    ("__A @ __B", "np_matmul (c_D g) {A} {B}", _QM, {"A": _QM, "B": _QM}),      # the sampler's design matrices have self.D columns
+    ("__X.transpose()", "np_transpose (c_D g) {X}", _QM, {"X": _QM}),
+    ("__a * __x", "np_vmuls {a} {x}", _QV, {"a": _QV, "x": "qnum"}), ("__A * __x", "np_mmuls {A} {x}", _QM, {"A": _QM, "x": "qnum"}),
+    ("np.random.normal(0.0, __s)", "!draw_normal_vec {s}", _QV, {"s": "list isqrt"}),
+]
+_MU_IADD = ("self.Mu[__i] += __v", "self'", "set_Mu {state} (np_iadd_at (Mu {state}) {i} {v})")
+_MVN = ("sample_mvn_from_precision(__Q, mu_part=__b)", "draw_mvn {Q} {b}", {"Q": _QM, "b": _QV}, "VV {x}", _QV)
+C08_W_STEP = dict(
+    _STMETHOD, func="_W_step", name="src_W_step", params=_GDS,
+    vars={"y": _QV, "_": _ZV, "dd1": _ZV, "dd2": _ZV, "c": "Z", "cidx": _NV, "stddev": "list isqrt", "tmp1": _QM, "tmp2": _QM,
+          "X": _QM, "old_contrib": _QV, "resid": _QV, "Xt": _QM, "prec": "qnum", "mu_part": _QV, "Q": _QM},
+    prims=_C08_LINALG + _C08_BLOCK_PRIMS + _C08_VEC2[:6] + _C08_MAT[:6],
+    assign_effects=[_store("W"), _MU_IADD, ("Q[np.diag_indices(self.D)] += __v", "Q'", "np_add_diag {state} {v}")],
+    try_prims=[_MVN], ignore=["warnings.warn(__m)"],
+)
+_C08_LINALG2 = [
+    ("__a[__i]", "np_take (repeat q0 (c_D g)) {a} {i}", _QM, {"a": _QM, "i": _ZV}),       # rows of a D-column matrix by Python ints
+    ("np.array([], dtype=np.float32).reshape(0, self.D)", "[]", _QM),                      # the matrix without rows
+    ("np.concatenate([__a, __b])", "{a} ++ {b}", _QM, {"a": _QM, "b": _QM}),
+    ("np.diag_indices(__n)", "DiagIndices {n}", "diag_indices", {"n": "Z"}),
+]
+_vstep = lambda k: dict(
+    _STMETHOD, func="_V%s_step" % k, name="src_V%s_step" % k, params=_GDS,
+    vars={"y": _QV, "cline": _ZV, "dd1": _ZV, "dd2": _ZV, "m": "Z", "idx1": _NV, "idx2": _NV, "stddev": "list isqrt",
+          "resid1": _QV, "old_contrib1": _QV, "X1": _QM, "resid2": _QV, "old_contrib2": _QV, "X2": _QM, "X": _QM, "resid": _QV,
+          "old_contrib": _QV, "idx": _NV, "Xt": _QM, "mu_part": _QV, "Q": _QM, "dix": "diag_indices"},
+    prims=_C08_LINALG2 + _C08_LINALG + _C08_BLOCK_PRIMS + _C08_VEC2[:6] + _C08_MAT[:6],
+    assign_effects=[_store("V" + k), _MU_IADD, ("Q[dix] += __v", "Q'", "np_add_diag_at dix' {state} {v}")],
+    try_prims=[_MVN], ignore=["warnings.warn(__m)"])
+C08_V2_STEP, C08_V1_STEP = _vstep("2"), _vstep("1")
 C08_ALL = [C08_N_OBS, C08_GET, C08_MCMC_STEP, C08_ALPHA, C08_PREC_OBS, C08_PREC_W0, C08_W0_STEP, C08_V0_STEP, C08_PREC_V0,
-           C08_PREC_V2, C08_PREC_V1, C08_PREC_W]
+           C08_PREC_V2, C08_PREC_V1, C08_PREC_W, C08_W_STEP, C08_V2_STEP, C08_V1_STEP]
 ALL += C08_ALL
